@@ -136,20 +136,32 @@ impl Local {
 /// and the flavours of an out-of-range str/slice index are folded into one class.
 pub fn pkey(p: &vx::Panicked) -> String {
   let k = p.key();
-  let (head, msg) = match k.split_once(':') {
-    Some((h, m)) => (h.to_string(), m.to_string()),
-    None => (k.clone(), String::new()),
-  };
+  let head = k.split_once(':').map(|x| x.0.to_string()).unwrap_or(k.clone());
   let m = &p.msg;
   let slice = m.contains("byte index") || m.contains("is out of bounds of") || m.contains("out of range for slice") || m.contains("begin <= end") || m.contains("slice index starts at") || m.contains("index out of bounds: the len is");
   if slice {
     return format!("{head}:slice-or-index-out-of-range");
   }
-  let msg = match msg.split_once('`') {
-    Some((a, _)) => a.trim_end().to_string(),
-    None => msg,
-  };
-  format!("{head}:{msg}")
+  if m.starts_with("called `Result::unwrap()` on an `Err` value") {
+    return format!("{head}:Result::unwrap() on Err");
+  }
+  if m.starts_with("called `Option::unwrap()` on a `None` value") {
+    return format!("{head}:Option::unwrap() on None");
+  }
+  // expect-style messages are "<text>: <Debug of the error>": keep the text only; std quotes data in back-ticks
+  let mut msg: &str = m;
+  if let Some((a, _)) = msg.split_once('`') {
+    msg = a;
+  }
+  if let Some((a, _)) = msg.split_once(": ") {
+    msg = a;
+  }
+  let mut norm: String = msg.trim_end().chars().map(|c| if c.is_ascii_digit() { '#' } else { c }).collect();
+  while norm.contains("##") {
+    norm = norm.replace("##", "#");
+  }
+  let norm: String = norm.chars().take(64).collect();
+  format!("{head}:{norm}")
 }
 
 /// Run ONE input through ONE entry point and judge it. `keep_distinct`: record the case as a distinct
